@@ -20,16 +20,24 @@ Cross(r, i) == r[i-1][1] * r[i][2] - r[i][1] * r[i-1][2]
 RingA2(r, idx) == ApaFoldSeqLeft(LAMBDA a, i : a + Cross(r, i), 0, idx)
 \* @type: (Seq(Seq(Int)), Seq(Int), Int) => Int;
 RingCN(r, idx, d) == ApaFoldSeqLeft(LAMBDA a, i : a + (r[i-1][d] + r[i][d]) * Cross(r, i), 0, idx)
+\* @type: (Seq(Seq(Int)), Seq(Int), Int) => Int;
+RingAbsCN(r, idx, d) == ApaFoldSeqLeft(LAMBDA a, i : a + AbsC((r[i-1][d] + r[i][d]) * Cross(r, i)), 0, idx)
 \* @type: (Seq(Seq(Seq(Int))), Seq(Seq(Int)), Seq(Bool), Int) => Int;
 Weight(rings, idxs, shell, k) == IF shell[k] THEN SgnC(RingA2(rings[k], idxs[k])) ELSE -SgnC(RingA2(rings[k], idxs[k]))
 \* @type: (Seq(Seq(Seq(Int))), Seq(Seq(Int)), Seq(Bool), Seq(Int), Int, Int, Int, Int) => Bool;
 CentroidOK(rings, idxs, shell, ks, gxn, gyn, gd, sc) ==
   LET A  == ApaFoldSeqLeft(LAMBDA a, k : a + Weight(rings, idxs, shell, k) * RingA2(rings[k], idxs[k]), 0, ks)
       CX == ApaFoldSeqLeft(LAMBDA a, k : a + Weight(rings, idxs, shell, k) * RingCN(rings[k], idxs[k], 1), 0, ks)
-      CY == ApaFoldSeqLeft(LAMBDA a, k : a + Weight(rings, idxs, shell, k) * RingCN(rings[k], idxs[k], 2), 0, ks) IN
+      CY == ApaFoldSeqLeft(LAMBDA a, k : a + Weight(rings, idxs, shell, k) * RingCN(rings[k], idxs[k], 2), 0, ks)
+  \* tolerance: 2^-30 of the scale, PLUS the forward error of one summation pass over the terms of the numerator,
+  \* (n + 8) 2^-50 sum |terms| / (3 |A|): a thin sliver far from the origin is ill-conditioned for a formula that works on
+  \* absolute coordinates, and such a formula is as correct as the fan of triangles around a base point
+      SX == ApaFoldSeqLeft(LAMBDA a, k : a + RingAbsCN(rings[k], idxs[k], 1), 0, ks)
+      SY == ApaFoldSeqLeft(LAMBDA a, k : a + RingAbsCN(rings[k], idxs[k], 2), 0, ks)
+      n  == ApaFoldSeqLeft(LAMBDA a, k : a + Len(rings[k]), 0, ks) IN
   A # 0 =>
-    /\ AbsC(gxn * 3 * A - CX * gd) * 1073741824 <= sc * 3 * AbsC(A) * gd
-    /\ AbsC(gyn * 3 * A - CY * gd) * 1073741824 <= sc * 3 * AbsC(A) * gd
+    /\ AbsC(gxn * 3 * A - CX * gd) * 1125899906842624 <= (sc * 3 * AbsC(A) * 1048576 + (n + 8) * SX) * gd
+    /\ AbsC(gyn * 3 * A - CY * gd) * 1125899906842624 <= (sc * 3 * AbsC(A) * 1048576 + (n + 8) * SY) * gd
 \* ring direction and signed area of one ring (C14: "a simple ring is reported counter-clockwise exactly when its exact signed
 \* area is positive, and the signed-area function returns that area (clockwise positive) to within rounding"):
 \* ccw = what IsRingCounterClockwise said; gn / gd = what SignedArea returned; the rings of this tier are simple
